@@ -2,3 +2,6 @@
 pub mod decoder;
 pub mod utf8;
 pub mod tokens;
+pub mod history;
+pub mod args;
+pub mod decl;
